@@ -369,7 +369,7 @@ def c07(chk):
     cat_programs(chk, judge)
     fock_loss(chk, "TraceLostWithoutTruncation")
     from . import p_rel
-    p_rel.float_programs(chk, {"Physical", "PassiveKeepsPhotons", "UnitaryKeepsPurity", "LossNoGain"})
+    p_rel.float_programs(chk, {"Physical", "PassiveKeepsPhotons", "UnitaryKeepsPurity", "LossNoGain", "ConditionalStateNormalised"})
     # purity / global uncertainty on the model itself (2-mode instance, exact determinants)
     chk.tlc("MC_Gauss", constants={"N": 2, "Depth": 2 if chk.tier == "quick" else 3, "AlphaId": "q" if chk.tier == "quick" else "d",
                                    "PrefixId": "e2", "KNum": 1, "KDen": 1, "EMIT": False},
